@@ -439,6 +439,63 @@ func (e *env) latePairs(seed int64) []map[string]any {
 	return bad
 }
 
+// foreignDecoder: two servers in one process, both with the default list of enabled decoders.  The first is built with a
+// private decoder (confighttp.WithDecoder); the second is not.  A request announcing the private encoding to the SECOND
+// server is a request whose content encoding is not enabled there: a client error, and the handler does not run (seeded
+// change C16-9 let all default-configured servers share one decoder table).
+func (e *env) foreignDecoder() []map[string]any {
+	mk := func(opts ...confighttp.ToServerOption) (string, func()) {
+		cfg := confighttp.ServerConfig{Endpoint: "127.0.0.1:0", MaxRequestBodySize: 1 << 20}
+		srv, err := cfg.ToServer(context.Background(), componenttest.NewNopHost(), componenttest.NewNopTelemetrySettings(), e.probe, opts...)
+		if err != nil {
+			return "", func() {}
+		}
+		ln, err := cfg.ToListener(context.Background())
+		if err != nil {
+			return "", func() {}
+		}
+		go func() { _ = srv.Serve(ln) }()
+		return "http://" + ln.Addr().String(), func() { _ = srv.Close() }
+	}
+	u1, c1 := mk(confighttp.WithDecoder("x-verif-private", func(body io.ReadCloser) (io.ReadCloser, error) { return body, nil }))
+	defer c1()
+	var bad []map[string]any
+	for round := 0; round < 2; round++ { // a default server created after, and one that ... is created in the next round too
+		u2, c2 := mk()
+		if u1 == "" || u2 == "" {
+			c2()
+			return bad
+		}
+		for i, u := range []string{u1, u2} {
+			pid := fmt.Sprintf("fd%d-%d", round, i)
+			req, _ := http.NewRequest(http.MethodPost, u, bytes.NewReader([]byte("twelve bytes")))
+			req.Header.Set("X-Verif-Id", pid)
+			req.Header.Set("Content-Encoding", "x-verif-private")
+			resp, err := http.DefaultClient.Do(req)
+			if err != nil {
+				continue
+			}
+			_, _ = io.Copy(io.Discard, resp.Body)
+			resp.Body.Close()
+			rec := e.probe.get(pid, false)
+			ran := rec != nil
+			if ran {
+				select {
+				case <-rec.done:
+				case <-time.After(10 * time.Second):
+				}
+				e.probe.drop(pid)
+			}
+			if i == 1 && (ran || resp.StatusCode < 400 || resp.StatusCode >= 500) {
+				bad = append(bad, map[string]any{"id": -1000 - round, "clause": "NotEnabledRejected", "what": fmt.Sprintf(
+					"a server with the default decoders accepted Content-Encoding x-verif-private, which only ANOTHER server of the process was built with (WithDecoder): handler ran=%v status=%d", ran, resp.StatusCode)})
+			}
+		}
+		c2()
+	}
+	return bad
+}
+
 type clientInconsistent struct{ what string }
 
 func (c clientInconsistent) Error() string { return "client produced an inconsistent request: " + c.what }
@@ -813,6 +870,7 @@ func main() {
 	if len(plan) > 100 { // not for replays of a single request
 		pairs = e.earlyPairs(seed)
 		pairs = append(pairs, e.latePairs(seed)...)
+		pairs = append(pairs, e.foreignDecoder()...)
 	}
 	for _, cl := range e.closers {
 		cl()
